@@ -29,6 +29,7 @@ type Item struct {
 	Next   bool
 	GH     bool   `json:",omitempty"` // group has its own middleware
 	Again  string `json:",omitempty"` // mount: the same sub-app is mounted a second time under this prefix (later sibling)
+	SubCfg int    `json:",omitempty"` // mount: the sub-app's own routing config: 0 = same as the parent, 1..4 = CaseSensitive/StrictRouting combinations (the serving app's config is what counts)
 	Items  []Item `json:",omitempty"`
 }
 
@@ -98,7 +99,11 @@ func build(r fiber.Router, items []Item, o *obs, mode string, cfg fiber.Config, 
 					build(r.Group(it.Again), it.Items, o, mode, cfg, true)
 				}
 			} else {
-				sub := fiber.New(cfg)
+				scfg := cfg
+				if it.SubCfg > 0 {
+					scfg.CaseSensitive, scfg.StrictRouting = (it.SubCfg-1)&1 != 0, (it.SubCfg-1)&2 != 0
+				}
+				sub := fiber.New(scfg)
 				build(sub, it.Items, o, mode, cfg, false)
 				r.Use(it.Path, sub)
 				if it.Again != "" {
@@ -293,6 +298,9 @@ func (g *gen) items(depth int, full string) []Item {
 			}
 			g.used[fp] = true
 			it := Item{Kind: "mount", Path: p, ID: g.id(), Items: g.items(depth-1, groupPath(full, p))}
+			if rapid.IntRange(0, 2).Draw(t, "subcfg") == 0 {
+				it.SubCfg = rapid.IntRange(1, 4).Draw(t, "subcfgv")
+			}
 			if rapid.IntRange(0, 5).Draw(t, "again") == 0 && !hasKind(it.Items, "mount") {
 				p2 := rapid.SampledFrom([]string{"/again", "/m9/", "/:other"}).Draw(t, "mpre2")
 				fp2 := normPrefix(groupPath(full, p2))
